@@ -153,7 +153,7 @@ func main() {
 	for _, u := range uf.Units {
 		rels[u.Pkg] = true
 	}
-	if *dump != "" {
+	if *dump != "" && *dump != "ALL:GEN" {
 		rels[strings.SplitN(*dump, ":", 2)[0]] = true
 	}
 	var rl []string
@@ -177,6 +177,15 @@ func main() {
 		os.Exit(3)
 	}
 	res.LoadSecs = time.Since(t0).Seconds()
+	if *dump == "ALL:GEN" {
+		m := map[string]string{}
+		for rel, pc := range w.Contracts {
+			m[rel] = pc.GenSrc
+		}
+		b, _ := json.Marshal(m)
+		fmt.Println(string(b))
+		return
+	}
 	if *dump != "" {
 		parts := strings.SplitN(*dump, ":", 2)
 		if parts[1] == "GEN" {
